@@ -86,8 +86,8 @@ KNOWN = [
      "what": "range.expanded: start - n / end + n overflow",
      "witness": "(0..10).expanded 9223372036854775807"},
     {"id": "C06i", "entry": r"(list|tuple)\.contains|(prelude|test)\.assert_(eq|ne)|list\.(retain|sort)|tuple\.sort_copy",
-     "file": "runtime/src/vm.rs", "msg": r"index out of bounds: the len is",
-     "what": "comparing a cyclic container with itself recurses until the 8-bit register index overflows "
+     "file": "runtime/src/vm.rs", "msg": r"index out of bounds: the len is|attempt to add with overflow",
+     "what": "comparing a cyclic container with itself recurses until the 8-bit register index overflows (index out of bounds in set_register, or `register + 1` overflowing in run_binary_op) "
              "(panic instead of an error or a stack overflow)",
      "witness": "l = [1]; l.push l; l.contains l"},
     {"id": "C06l", "entry": r"text:format.*", "file": "format/src/format.rs", "msg": r"is not a char boundary",
